@@ -78,6 +78,11 @@ def o_parse(name):
         extra = []
     if per_section != sections or extra:
         return (("conservation", repr(parts), f"words per comma section {sections!r}"), nontrivial, cls)
+    # non-strict mode only works around the errors it detects (docstring): on a valid name it is the same function
+    loose = parse_single_name_into_parts(name, strict=False)
+    lparts = dict(first=loose.first, von=loose.von, last=loose.last, jr=loose.jr)
+    if lparts != parts:
+        return (("non-strict-differs-on-valid-name", repr(lparts), repr(parts)), nontrivial, cls)
     exp = refnames.parse_name(name)
     if exp is None:
         cls.append("case-unspecified")
